@@ -343,19 +343,15 @@ func BufferSnippet(b []byte) string {
 	return fmt.Sprintf("%q...%q", bStart, bEnd)
 }
 
-func normalizeHeaderValue(ov, ob []byte, headerLength int) (nv, nb []byte, nhl int) {
-	nv = ov
-	length := len(ov)
-	if length <= 0 {
-		return
-	}
-	write := 0
-	shrunk := 0
+// normalizeHeaderValue returns a copy of ov with the obs-fold line breaks removed.
+//
+// It must not edit ov in place: ov aliases the read buffer of the connection, and
+// compacting that buffer corrupts whatever is appended to it by a later read.
+func normalizeHeaderValue(ov []byte) []byte {
+	nv := make([]byte, 0, len(ov))
 	lineStart := false
-	for read := 0; read < length; read++ {
-		c := ov[read]
+	for _, c := range ov {
 		if c == '\r' || c == '\n' {
-			shrunk++
 			if c == '\n' {
 				lineStart = true
 			}
@@ -365,28 +361,9 @@ func normalizeHeaderValue(ov, ob []byte, headerLength int) (nv, nb []byte, nhl i
 		} else {
 			lineStart = false
 		}
-		nv[write] = c
-		write++
+		nv = append(nv, c)
 	}
-
-	nv = nv[:write]
-	copy(ob[write:], ob[write+shrunk:])
-
-	// Check if we need to skip \r\n or just \n
-	skip := 0
-	if ob[write] == '\r' {
-		if ob[write+1] == '\n' {
-			skip += 2
-		} else {
-			skip++
-		}
-	} else if ob[write] == '\n' {
-		skip++
-	}
-
-	nb = ob[write+skip : len(ob)-shrunk]
-	nhl = headerLength - shrunk
-	return
+	return nv
 }
 
 func stripSpace(b []byte) []byte {
